@@ -9,6 +9,9 @@ Shape B.  Three families of shards:
 * ``names`` -- the glyph-name grammar straight through ``encodingdb.name2unicode``.
 * ``tables``-- the four Latin encoding tables (as served by ``EncodingDB.get_encoding``) against
   independent sources (cp1252, mac_roman, the frozen Annex D PDFDocEncoding table, CFF standard strings).
+* ``indir`` -- four feature-rich fonts with every applicable sub-object (Encoding, Differences, BaseEncoding, Widths, single
+  widths, FirstChar, LastChar, FontDescriptor, MissingWidth, Length1, FontMatrix, FontBBox, BaseFont) written directly or as
+  an indirect reference: all subsets with <= 2 or >= k-1 indirect slots (thorough: all 2^k).
 * ``std14`` -- every name of the built-in metrics table (14 canonical faces and their 12 alternative names) as BaseFont
   without /Widths under three encodings, all 256 codes; alias -> canonical identity and frozen fingerprints of the table.
 * ``share`` -- two fonts in one document (Differences overlay must not leak into the shared base table); fonts of one
@@ -77,6 +80,17 @@ TOUNI: List[Optional[Tuple[list, list]]] = [
     # one stream holding several begincmap .. endcmap sections (a map with supplements appended): all of them count
     ("sections", [([(b"\x41", "X")], []), ([(b"\x42", "Y"), (b"\x01", "Q")], [(b"\x61", b"\x63", "α")])]),
     ("sections", [([], [(b"\x30", b"\x32", ["A", "BC", "D"])]), ([(b"\x43", "ffi")], []), ([(b"\x7f", "Z")], [(b"\x80", b"\x82", "Ā")])]),
+    # blocks in which malformed entries stand between well-formed ones: a malformed entry is skipped (the codes it
+    # names are not judged), every well-formed neighbour in the block still counts
+    ("raw",
+     b"/CIDInit /ProcSet findresource begin\n12 dict begin\nbegincmap\n/CMapName /Adobe-Identity-UCS def\n/CMapType 2 def\n"
+     b"1 begincodespacerange\n<00> <FF>\nendcodespacerange\n"
+     b"7 beginbfrange\n<41> <43> <0061>\n<50> <0051> <03A0>\n<44> <45> <0064>\n80 <52> <0041>\n<46> <46> [<0066>]\n<53> <55> [<0041>]\n<47> <48> <0067>\nendbfrange\n"
+     b"5 beginbfchar\n<61> <0041>\n<62> 5\n<63> <0043>\n98 <0044>\n<64> <0045>\nendbfchar\n"
+     b"3 beginbfrange\n<70> /nope <0070>\n<71> <72> <0051>\n<73> <0074> [<0041>]\nendbfrange\n"
+     b"endcmap\nCMapName currentdict /CMap defineresource pop\nend\nend\n",
+     {0x41: "a", 0x42: "b", 0x43: "c", 0x44: "d", 0x45: "e", 0x46: "f", 0x47: "g", 0x48: "h", 0x61: "A", 0x63: "C", 0x64: "E", 0x71: "Q", 0x72: "R"},
+     [0x50, 0x51, 0x52, 0x53, 0x54, 0x55, 0x62, 0x70, 0x73, 0x74]),
 ]
 
 # widths: kind, basefont, firstchar, widths(list or None), missingwidth(or None)
@@ -143,7 +157,7 @@ BOUNDS = {"quick": {"deviations": 3, "shards": 96}, "thorough": {"deviations": 5
 
 META = {
     "rule": (
-        "font family: every choice vector over (subtype 4, base encoding 7, encoding form 2, Differences 11, ToUnicode 11 (two with several begincmap..endcmap sections), "
+        "font family: every choice vector over (subtype 4, base encoding 7, encoding form 2, Differences 11, ToUnicode 12 (two with several begincmap..endcmap sections, one with malformed entries between well-formed ones), "
         "widths 14, Type3 FontMatrix 5, embedded Type 1 header 7 (two whose vector gives no code a Unicode value), spelling 2) with at most `deviations` non-default "
         "choices (default = Type1, WinAnsi name, no Differences, no ToUnicode, Widths from 32 + MissingWidth), minus the "
         "combinations that are not fonts (Type3 x standard-14, FontMatrix on non-Type3, FontFile on TrueType/Type3/"
@@ -151,7 +165,8 @@ META = {
         "every code's (text, adv) is compared with the model. states/transitions = nodes/edges of the choice tree "
         "(distinct vector prefixes), traces = fonts executed and compared. names family: one case per glyph name "
         "passed to name2unicode; tables family: one case per (encoding, code) cell; share family: one case per "
-        "two-font document. std14 family: one case per (metrics name, encoding) document with all 256 codes, one per "
+        "two-font document. indir family: one case per (font, set of sub-objects written as references) document, all "
+        "256 codes. std14 family: one case per (metrics name, encoding) document with all 256 codes, one per "
         "metrics-table name (alternative name carries the canonical face's metrics; canonical metrics equal the "
         "frozen fingerprint). non-trivial = the model expects at least one non-placeholder text and one non-zero "
         "advance (fonts), a non-empty expected string (names), a defined cell (tables)."
@@ -217,8 +232,14 @@ def type1_header(ff) -> bytes:
     return bytes(out)
 
 
-def build(vec: Tuple[int, ...]):
-    """-> (pdf bytes, model) ; model = list of 256 dicts(text, adv, tsrc, wsrc, name, judged_text)"""
+SPELL_INDIRECT = frozenset({"Encoding", "Differences", "Widths", "WidthElems", "FontDescriptor"})  # what spelling "indirect" means
+ALL_SLOTS = ["Encoding", "Differences", "BaseEncoding", "Widths", "WidthElems", "FirstChar", "LastChar", "FontDescriptor", "MissingWidth", "Length1",
+             "FontMatrix", "FontBBox", "BaseFont"]
+
+
+def build(vec: Tuple[int, ...], slots=None):
+    """-> (pdf bytes, model) ; model = list of 256 dicts(text, adv, tsrc, wsrc, name, judged_text).
+    ``slots``: names of the sub-objects written as indirect references (default: by the spelling dimension)."""
     sub, enc, form, diff, tou, wid, fm, ff, spell = (DIMS[i][1][c] for i, c in enumerate(vec))
     wkind, basefont, firstchar, wlist, missing = wid
     is_t3 = sub == "Type3"
@@ -301,7 +322,13 @@ def build(vec: Tuple[int, ...]):
                 code += 1
     # ---- ToUnicode
     tu: Dict[int, str] = {}
-    tou_sections = [] if tou is None else (list(tou[1]) if tou[0] == "sections" else [tou])
+    tou_unjudged = set()
+    if tou is not None and tou[0] == "raw":
+        tou_sections = []
+        tu.update(tou[2])
+        tou_unjudged = set(tou[3])
+    else:
+        tou_sections = [] if tou is None else (list(tou[1]) if tou[0] == "sections" else [tou])
     for sec in tou_sections:
         for c, s in sec[0]:
             tu[c[0]] = s
@@ -334,7 +361,7 @@ def build(vec: Tuple[int, ...]):
             text, tsrc, jt = glyph_text, src[code], judged[code]
         else:
             text, tsrc, jt = "(cid:%d)" % code, ("undefined-name:" + src[code]) if name is not None else "unencoded:" + basesrc, judged[code]
-        if name is not None and R.has_lowercase_hex_form(name):
+        if (name is not None and R.has_lowercase_hex_form(name)) or code in tou_unjudged:
             jt = False
         if metrics is not None and basefont == "ZapfDingbats":
             # pdfminer's ZapfDingbats metrics (from the AFM) are keyed chr(N) for the glyph named aN, ' ' for space
@@ -365,50 +392,55 @@ def build(vec: Tuple[int, ...]):
 
     # ---- the font dictionary
     doc = Doc()
-    ind = (lambda o: doc.add(o)) if spell == "indirect" else (lambda o: o)
+    if slots is None:
+        slots = SPELL_INDIRECT if spell == "indirect" else frozenset()
+
+    def ind(slot: str, o: Any) -> Any:
+        return doc.add(o) if slot in slots else o
+
     font: Dict[str, Any] = {"Type": N("Font"), "Subtype": N(sub)}
     if not is_t3:
-        font["BaseFont"] = N(basefont)
+        font["BaseFont"] = ind("BaseFont", N(basefont))
     if has_encoding_key:
         if form == "name":
-            font["Encoding"] = N(enc)
+            font["Encoding"] = ind("Encoding", N(enc))
         else:
             e: Dict[str, Any] = {"Type": N("Encoding")}
             if enc is not None:
-                e["BaseEncoding"] = N(enc)
+                e["BaseEncoding"] = ind("BaseEncoding", N(enc))
             if diff is not None:
-                e["Differences"] = ind(list(diff))
-            font["Encoding"] = ind(e)
+                e["Differences"] = ind("Differences", list(diff))
+            font["Encoding"] = ind("Encoding", e)
     if wlist is not None:
-        font["FirstChar"] = firstchar
-        font["LastChar"] = firstchar + len(wlist) - 1
+        font["FirstChar"] = ind("FirstChar", firstchar)
+        font["LastChar"] = ind("LastChar", firstchar + len(wlist) - 1)
         wl: List[Any] = list(wlist)
-        if spell == "indirect":
+        if "WidthElems" in slots:
             wl = [doc.add(w) if i % 3 == 1 else w for i, w in enumerate(wl)]
-        font["Widths"] = ind(wl)
+        font["Widths"] = ind("Widths", wl)
     if wkind != "std14":
         fd: Dict[str, Any] = {
             "Type": N("FontDescriptor"), "FontName": N(basefont), "Flags": 32, "FontBBox": [0, -200, 1000, 800],
             "Ascent": 800, "Descent": -200, "ItalicAngle": 0, "CapHeight": 700, "StemV": 80,
         }
         if missing is not None:
-            fd["MissingWidth"] = missing
+            fd["MissingWidth"] = ind("MissingWidth", missing)
         if ff is not None:
             hdr = type1_header(ff)
             body = bytes((i * 7 + 3) & 0xFF for i in range(64))
             trailer = b"0" * 64 + b"\ncleartomark\n"
-            fd["FontFile"] = doc.add(Stream({"Length1": len(hdr), "Length2": len(body), "Length3": len(trailer)}, hdr + body + trailer))
+            fd["FontFile"] = doc.add(Stream({"Length1": ind("Length1", len(hdr)), "Length2": len(body), "Length3": len(trailer)}, hdr + body + trailer))
         if not is_t3 or missing is not None:
-            font["FontDescriptor"] = doc.add(fd) if spell == "indirect" else fd
+            font["FontDescriptor"] = ind("FontDescriptor", fd)
     if is_t3:
-        font["FontBBox"] = [0, -200, 1000, 800]
-        font["FontMatrix"] = list(FONTMATRIX[vec[6]])
+        font["FontBBox"] = ind("FontBBox", [0, -200, 1000, 800])
+        font["FontMatrix"] = ind("FontMatrix", list(FONTMATRIX[vec[6]]))
         glyph = doc.add(Stream({}, b"1000 0 0 -200 1000 800 d1 0 0 1000 800 re f"))
         procs = {n: glyph for n in sorted({m["name"] for m in model if m["name"]} | {"A"})}
         font["CharProcs"] = procs
         font["Resources"] = {}
     if tou is not None:
-        font["ToUnicode"] = doc.add(Stream({}, b"".join(tounicode_cmap(sec[0], sec[1]) for sec in tou_sections)))
+        font["ToUnicode"] = doc.add(Stream({}, tou[1] if tou[0] == "raw" else b"".join(tounicode_cmap(sec[0], sec[1]) for sec in tou_sections)))
     content = b"BT /F1 %d Tf 10 700 Td " % FONTSIZE + ser(HexStr(bytes(range(256)))) + b" Tj ET"
     pdf = page_doc(content, {"F1": doc.add(font)}, doc=doc)
     return pdf, model
@@ -981,6 +1013,78 @@ def run_share(st) -> None:
             st.violation(sig, {"family": "share", "enc": enc, "diff": DIFFS.index(diff), "order": order, "index": i, "pdf": pdf, "model": jmodel(model)}, exp, ob, what)
 
 
+# ------------------------------------------------------------------ indir family: every sub-object direct / by reference
+# Three feature-rich fonts; every applicable sub-object (ALL_SLOTS) is written either directly or as "N 0 R".  quick: all
+# subsets with at most 2 and with at least k-1 of the k slots indirect; thorough: all 2^k subsets.
+def _vec(**kw) -> Tuple[int, ...]:
+    v = [0] * len(DIMS)
+    for i, (label, _) in enumerate(DIMS):
+        if label in kw:
+            v[i] = kw[label]
+    return tuple(v)
+
+
+INDIR_FONTS = [
+    # embedded Type 1 program with its own vector + Differences-only dictionary + ToUnicode + Widths from 32 + MissingWidth
+    ("type1-builtin-differences", dict(encoding=1, differences=1, tounicode=1, widths=0, fontfile=1),
+     ["Encoding", "Differences", "Widths", "WidthElems", "FirstChar", "LastChar", "FontDescriptor", "MissingWidth", "Length1", "BaseFont"]),
+    # Type3: BaseEncoding + Differences, Widths from 200, anisotropic FontMatrix
+    ("type3-base-differences", dict(subtype=3, encoding=3, differences=2, widths=2, fontmatrix=2),
+     ["Encoding", "Differences", "BaseEncoding", "Widths", "WidthElems", "FirstChar", "FontDescriptor", "MissingWidth", "FontMatrix", "FontBBox"]),
+    # TrueType: encoding by name, full Widths, several-section ToUnicode
+    ("truetype-named-encoding", dict(subtype=1, encoding=3, widths=1, tounicode=9),
+     ["Encoding", "Widths", "WidthElems", "FirstChar", "LastChar", "FontDescriptor", "BaseFont"]),
+    # embedded program whose header names StandardEncoding, Differences-only dictionary, fractional widths
+    ("type1-standard-header", dict(encoding=1, differences=8, widths=4, fontfile=2),
+     ["Encoding", "Differences", "Widths", "WidthElems", "FirstChar", "FontDescriptor", "MissingWidth", "Length1"]),
+]
+
+
+def indir_cases(tier: str):
+    for fi, (_, _, slots) in enumerate(INDIR_FONTS):
+        k = len(slots)
+        for r in range(0, k + 1):
+            if tier == "quick" and 2 < r < k - 1:
+                continue
+            for sub in itertools.combinations(range(k), r):
+                yield fi, sub
+
+
+def indir_signature(slots, label: str) -> str:
+    slots = sorted(slots)
+    if len(slots) == 1:
+        return "C06/indirect-sub-object:" + slots[0]
+    if "BaseEncoding" in slots:
+        return "C06/indirect-sub-object:BaseEncoding"  # diagnosed: the name is read without resolving the reference
+    return "C06/indirect-sub-objects:" + label
+
+
+def run_indir(cases, st) -> None:
+    for fi, sub in cases:
+        label, kw, slotnames = INDIR_FONTS[fi]
+        vec = _vec(**kw)
+        slots = frozenset(slotnames[i] for i in sub)
+        tables_changed()
+        pdf, model = build(vec, slots)
+        ctx = ctx_of(vec)
+        viol, obs = compare(pdf, model, ctx)
+        check_tables(st, pdf)
+        st.states += 1 + len(sub)
+        st.transitions += len(sub) + 1
+        st.traces += 1
+        st.case(("indir", fi, sub), nontrivial=True, outcome=obs)
+        jm = None
+        for sig, code, exp, ob, what in viol:
+            sig = indir_signature(slots, label)
+            if st.viol_counts[sig] >= st.MAX_VIOL_PER_SIG:
+                st.viol_counts[sig] += 1
+                continue
+            if jm is None:
+                jm = jmodel(model)
+            st.violation(sig, {"family": "indir", "font": label, "vec": list(vec), "slots": sorted(slots), "code": code, "pdf": pdf, "model": jm, "ctx": ctx}, exp, ob,
+                         what + f" [indirect: {sorted(slots)}]")
+
+
 # ------------------------------------------------------------------ std14 family: every metrics name
 # Alternative names of the standard fonts (PDF Reference 1.7, implementation note 62 / Table H.3): a font with one of
 # these BaseFont names and no /Widths takes the metrics of the canonical face.
@@ -1093,6 +1197,9 @@ def shards(tier):
     sz = (len(names) + nn - 1) // nn
     out += [("names", i, min(i + sz, len(names))) for i in range(0, len(names), sz)]
     out += [("tables",), ("share",), ("std14",)]
+    ic = list(indir_cases(tier))
+    per = 40
+    out += [("indir", i, min(i + per, len(ic))) for i in range(0, len(ic), per)]
     return out
 
 
@@ -1135,6 +1242,11 @@ def run_shard(shard, tier, st):
     elif fam == "tables":
         run_tables(st)
         st.sample({"family": "tables", "encodings": list(R.ENC_COLUMN)})
+    elif fam == "indir":
+        cases = list(indir_cases(tier))[shard[1] : shard[2]]
+        run_indir(cases, st)
+        if shard[1] == 0:
+            st.sample({"family": "indir", "font": INDIR_FONTS[cases[-1][0]][0], "indirect": [INDIR_FONTS[cases[-1][0]][2][i] for i in cases[-1][1]]})
     elif fam == "std14":
         run_std14(st)
         st.sample({"family": "std14", "names": len(STD14_ALIASES) + len(STD14_CANONICAL), "encodings": STD14_ENCODINGS})
@@ -1168,6 +1280,14 @@ def replay(case):
         for v in st.violations:
             if v["case"].get("encoding") == case["encoding"] and v["case"].get("code") == case["code"]:
                 out.append({"signature": v["signature"], "expected": repr(v["expected"]), "observed": repr(v["observed"])})
+    elif fam == "indir":
+        model = unjmodel(case["model"])
+        codes = None if case["code"] < 0 else [case["code"]]
+        viol, _ = compare(case["pdf"], model, case.get("ctx") or {}, codes)
+        slots = case["slots"]
+        for sig, code, exp, ob, what in viol:
+            sig = indir_signature(slots, case["font"])
+            out.append({"signature": sig, "expected": repr(exp), "observed": repr(ob)})
     elif fam == "std14-doc":
         _, viol, _ = check_std14_doc(case["basefont"], case["encoding"])
         for sig, code, exp, ob, what in viol:
